@@ -21,7 +21,8 @@ RULE = (
     "carried elements x target shape in {present, blank, absent where the schema allows} x {compact, "
     "pretty-printed}; (b) Hypothesis messages of all kinds drawn against random states (odd IDs: "
     "prefixes of each other, markup-significant, Unicode).  Oracle: IDs read from the message TEXT by "
-    "the harness (vlib/model.Msg); every story/stories/item/items/source_*/target_* accessor yields "
+    "the harness (vlib/model.Msg); message_id, ro_id, base_tag, dict (and ro_slug / stories of roReplace, "
+    "roMetadataReplace, roCreate) agree with the text; every story/stories/item/items/source_*/target_* accessor yields "
     "exactly those IDs in message order; a blank or absent target is None or an object whose id is "
     "None - never another ID; carried stories/items are canon-equal to the message text (roStorySend: "
     "to the independently converted story); inspect() prints without raising and its output mentions "
@@ -130,6 +131,10 @@ def _merge_and_edit(mo, m):
         pass
 
 
+def access_ok(story):
+    return story.find('storyID') is not None
+
+
 def judge_msg(case):
     text = case['msg_xml']
     m = model.Msg(text)
@@ -153,6 +158,30 @@ def judge_msg(case):
                 fail(f'{name}|raised-{type(e).__name__}',
                      f'.{name} raised {type(e).__name__} at {innermost_site(e.__traceback__)}: {e}')
                 return False, None
+        # envelope-level accessors every message has
+        root = ET.fromstring(text)
+        for name, exp in (('message_id', int(root.findtext('messageID').strip()) if (root.findtext('messageID') or '').strip().lstrip('+-').isdigit() else None),
+                          ('ro_id', m.base.findtext('roID') if m.base is not None and m.base.find('roID') is not None else None)):
+            if exp is None:
+                continue
+            ok, v = get(name)
+            if ok and v != exp:
+                fail(f'{name}|wrong-value', f'.{name} is {v!r}, the message says {exp!r}', exp, v)
+        ok, bt = get('base_tag')
+        if ok and (bt is None or bt.tag != m.base.tag):
+            fail('base_tag|wrong-element', f'.base_tag is {getattr(bt, "tag", None)!r}, the message element is {m.base.tag!r}')
+        get('dict')
+        if m.kind in ('MetaDataReplace', 'RunningOrderReplace', 'RunningOrder') and m.base.find('roSlug') is not None:
+            ok, v = get('ro_slug')
+            if ok and v != m.base.findtext('roSlug') and not (v is None and not m.base.findtext('roSlug')):
+                fail('ro_slug|wrong-value', f'.ro_slug is {v!r}, the message says {m.base.findtext("roSlug")!r}')
+        if m.kind in ('RunningOrderReplace', 'RunningOrder'):
+            exp_ids = [xmlcmp.story_id(x) for x in m.base.findall('story')]
+            if all(access_ok(x) for x in m.base.findall('story')):
+                ok, v = get('stories')
+                if ok and [x.id for x in v] != exp_ids:
+                    fail('stories|wrong-ids', f'.stories exposes {[x.id for x in v]}, the message carries {exp_ids}', exp_ids,
+                         [x.id for x in v])
         acc = ACCESS.get(m.kind, {})
         if 'story' in acc:
             ok, v = get(acc['story'])
